@@ -143,3 +143,20 @@ def thresholds_for(rng, c: int, nauth: int) -> list:
 
 
 BAD_THRESHOLDS = [0, -1, None, "1", 1.0, 1.5, [1], float("inf"), float("nan"), -2**70]
+
+
+def retyped(v):
+    """the value with every number / bool replaced by one that Python's == cannot tell from it but JSON can (1 <-> 1.0 <-> True, 0 <-> False)"""
+    if isinstance(v, dict):
+        return {k: retyped(x) for k, x in v.items()}
+    if isinstance(v, list):
+        return [retyped(x) for x in v]
+    if v is True:
+        return 1
+    if v is False:
+        return 0
+    if isinstance(v, int) and abs(v) < 2**53:
+        return float(v)
+    if isinstance(v, float) and v == v and abs(v) < 2**53 and v == int(v):
+        return int(v) if repr(v) != "-0.0" else 0.0
+    return v
